@@ -253,8 +253,8 @@ PROPS = {
         "rules": R(r(DL.lk0_blocking_acquisitions, only=r"ChanneledWrapper|StoreImpl\.subscriber-list|all-acquisitions|floor"), X.ch_channeled, C.ch1_arm_purity, C.ch2_result_tells_enqueued, C.ch4_retry_identity,
                    r(T.st4_callbacks_live_in_the_loop, only=r"channeled|NOTIFY|floor"), r(S.su1_mutators, drop=r"append:|floor:push"),
                    S.lc3_release_under_list_lock, T.st1_stop_is_close_plus_join, r(S.cb1_callbacks_hold_no_reentrant_lock, only=r"no-list-lock-in-on_notify|floor"),
-                   r(S.su3_shutdown_release, only=r"every-exit-releases|floor:clear"), r(DL.l1_lock_order, only=r"re-entrant-lock|lock-order-cycle", name="L1"), M.n4_notify_phase_not_bypassed, r(PI3_NOTIFY, name="PI3")),
-        "explanation": "Static decision: the user's subscriber lives only in the spawned thread's delivery loop (R1,R4,ST4); the forwarder enqueues each notification once, unmodified, under its slot lock and never after release (R3); the channel wrapper never blocks under a drop policy and delivers the newest under DropOldest (CH1,CH2,CH4); release drops the sender, enqueues nothing, then joins - reached atomically with removal from unsubscribe and from the shutdown release (R2,SU2,SU3); defaults are DEFAULT_CAPACITY/BlockOnFull (R5). stop() closes and joins on every path (ST1). Forwarders are only ever called from the reducer thread's notify loop, so each channel sees the notifications in reduce order (ST4), and a forwarder leaves the list only through the releasing removals - never by the list being taken or overwritten as a whole, which would skip the drop-sender-and-join (SU1).",
+                   r(S.su3_shutdown_release, only=r"every-exit-releases|arm-releases-before-emptying|unsubscribe-all-then-clear|floor:clear"), r(DL.l1_lock_order, only=r"re-entrant-lock|lock-order-cycle", name="L1"), M.n4_notify_phase_not_bypassed, r(PI3_NOTIFY, name="PI3")),
+        "explanation": "Static decision: the user's subscriber lives only in the spawned thread's delivery loop (R1,R4,ST4); the forwarder enqueues each notification once, unmodified, under its slot lock and never after release (R3); the channel wrapper never blocks under a drop policy and delivers the newest under DropOldest (CH1,CH2,CH4); release drops the sender, enqueues nothing, then joins - reached atomically with removal from unsubscribe and from the shutdown release, on each of its arms - the one for a poisoned list lock included - before the list is emptied (R2,SU2,SU3); defaults are DEFAULT_CAPACITY/BlockOnFull (R5). stop() closes and joins on every path (ST1). Forwarders are only ever called from the reducer thread's notify loop, so each channel sees the notifications in reduce order (ST4), and a forwarder leaves the list only through the releasing removals - never by the list being taken or overwritten as a whole, which would skip the drop-sender-and-join (SU1).",
         "not_decided": ["run-time thread identity", "timing"],
     },
     "C11": {
@@ -285,8 +285,9 @@ PROPS = {
                    r(S.su3_shutdown_release, only=r"every-exit-releases|floor:clear"), DL.l3_no_waiting_under_a_lock,
                    r(T.st4_callbacks_live_in_the_loop, only=r"no-unmodelled-user-callback|floor"), r(X.it_iterator, only=r"drop-ignores-handle|drop-unsubscribes", name="IT4"),
                    r(Q.q3_enqueue_under_sender_lock, only=r"send-under-lock|sender-cloned-out-of-slot|sender-lock-exclusive|floor"),
-                   r(S.su2_unsubscribe, only=r"on_unsubscribe-iff-removed|floor"), r(PI3_NOTIFY, only=r"collection-read-in-pass|floor", name="PI3"), r(E.e4_effect_action, only=r"action-effect-dispatches-once|floor")),
-        "explanation": "Static deadlock analysis on context-sensitive inlined call graphs rooted at every entry point of every thread role (client API, reducer thread, pool jobs, channeled thread, iterator consumer), with class-hierarchy resolution of dyn calls into the crate's impls and the property's own model of user callbacks: the lock-order graph is acyclic without self edges (L1); no blocking send/recv/join is performed while holding a lock the unblocking party takes, no role blocks on a channel only it consumes, joined threads are disconnected first (L2, E6); the thread stop() joins is guaranteed its Exit: stop() closes first, close() enqueues Exit under a blocking lock on every path, the loop leaves on Exit (ST1,Q4,ST3). Premises about the leaf wrapper and the joined threads: drop arms never block, the blocking arm is one blocking send (CH1), stop() closes first, close() enqueues Exit on every path and the loop leaves on it (ST1,Q4,ST3), the iterator is released by a blocking Exit send into a channel with a buffer slot (IT2, IT1: with a rendezvous channel the release under the list lock would wait for a consumer that may never call next()), callbacks never run under the state lock (CB1).",
+                   r(S.su2_unsubscribe, only=r"on_unsubscribe-iff-removed|floor"), r(PI3_NOTIFY, only=r"collection-read-in-pass|floor", name="PI3"), r(E.e4_effect_action, only=r"action-effect-dispatches-once|floor"),
+                   S.su6_snapshot_right_before_delivery, r(X.it_iterator, only=r"none-disarms-and-detaches", name="IT3")),
+        "explanation": "Static deadlock analysis on context-sensitive inlined call graphs rooted at every entry point of every thread role (client API, reducer thread, pool jobs, channeled thread, iterator consumer), with class-hierarchy resolution of dyn calls into the crate's impls and the property's own model of user callbacks: the lock-order graph is acyclic without self edges (L1); no blocking send/recv/join is performed while holding a lock the unblocking party takes, no role blocks on a channel only it consumes, joined threads are disconnected first (L2, E6); the thread stop() joins is guaranteed its Exit: stop() closes first, close() enqueues Exit under a blocking lock on every path, the loop leaves on Exit (ST1,Q4,ST3). Premises about the leaf wrapper and the joined threads: drop arms never block, the blocking arm is one blocking send (CH1), stop() closes first, close() enqueues Exit on every path and the loop leaves on it (ST1,Q4,ST3), the iterator is released by a blocking Exit send into a channel with a buffer slot (IT2, IT1: with a rendezvous channel the release under the list lock would wait for a consumer that may never call next()), callbacks never run under the state lock (CB1). No user callback runs between the subscriber-list snapshot and its delivery loop (SU6): a feeder whose iterator was dropped during such a callback would be sent a pair into a channel that already holds its end marker and that nobody reads - the reducer thread would never return from that send. Every None of next() drops the receiver and the handle, so a further next() returns at once instead of waiting on a channel its own handle keeps connected (IT3).",
         "not_decided": ["progress inside crossbeam/rusty_pool/std", "a client thread playing two roles itself", "the 3 s timeout masking a hang"],
     },
     "C14": {
